@@ -216,4 +216,42 @@ func init() {
 	mutant(&Mutant{Name: "c13-base-url-written-into-the-registry", Property: "C13", File: "svg/svg.go",
 		Old: "\tp := NewPathData(o)\n", New: "\tif m != nil && m.URL != nil && o.Inline {\n\t\tu := *m.URL\n\t\tdefer func() { m.URL = &u }()\n\t\tm.URL = nil\n\t}\n\tp := NewPathData(o)\n",
 		Rule: "R13.10", Construct: "svg/no write into the registry"})
+	mutant(&Mutant{Name: "c04-prefixed-flex-looked-up-with-its-prefix", Property: "C04", File: "css/css.go",
+		Old: "\t\t\ttokensProp = ToHash(property[i+2:])\n", New: "\t\t\ttokensProp = ToHash(property[:i+2])\n",
+		Rule: "R04.32", Construct: "see the name behind a vendor prefix"})
+	mutant(&Mutant{Name: "c09-parentheses-of-let-dropped", Property: "C09", File: "js/js.go",
+		Old: "\t\tif prec <= precInside && !keepGroup {\n", New: "\t\t_ = keepGroup\n\t\tif prec <= precInside {\n",
+		More: [][2]string{{"(bytes.Equal(v.Name(), letBytes) || bytes.Equal(v.Name(), asyncBytes)) {", "bytes.Equal(v.Name(), asyncBytes) {"}},
+		Rule: "R09.30", Construct: "only after a look at the identifiers let and async"})
+	mutant(&Mutant{Name: "c03-carriage-return-reference-decoded-in-attributes", Property: "C03", File: "html/html.go",
+		Old: "val = parse.ReplaceEntities(val, EntitiesMap, AttrRevEntitiesMap)", New: "val = parse.ReplaceEntities(val, EntitiesMap, nil)",
+		Rule: "R03.25", Construct: "hands over a reverse map for the bytes the parser normalises"})
+	mutant(&Mutant{Name: "c03-carriage-return-missing-from-the-text-escapes", Property: "C03", File: "html/table.go",
+		Old: "var TextRevEntitiesMap = map[byte][]byte{\n\t'<':  []byte(\"&lt;\"),\n\t'\\r': []byte(\"&#13;\"), // a literal carriage return is turned into a line feed by the parser\n}", New: "var TextRevEntitiesMap = map[byte][]byte{\n\t'<': []byte(\"&lt;\"),\n}",
+		Rule: "R03.25", Construct: "hands over a reverse map for the bytes the parser normalises"})
+	mutant(&Mutant{Name: "c02-hoisted-name-skips-scopes-without-declarations", Property: "C02", File: "js/vars.go",
+		Old: "\t\t\t\t\t\t\ts.AddUndeclared(ref)\n", New: "\t\t\t\t\t\t\tif 0 < len(s.Declared) {\n\t\t\t\t\t\t\t\ts.AddUndeclared(ref)\n\t\t\t\t\t\t\t}\n",
+		Rule: "R02.5", Construct: "registered in every scope of the walk"})
+	mutant(&Mutant{Name: "c11-event-handler-escaped-only-when-the-source-had-an-ampersand", Property: "C11", File: "html/html.go",
+		Old: "buffer.NewReader(decodeAttrVal(parse.Copy(val))), inlineParams); err == nil {\n\t\t\t\t\t\t\t\tval = escapeAttrAmp(attrMinifyBuffer.Bytes())\n\t\t\t\t\t\t\t} else if err != minify.ErrNotExist {\n\t\t\t\t\t\t\t\treturn minify.UpdateErrorPosition(err, z, attr.Offset)\n\t\t\t\t\t\t\t}\n\t\t\t\t\t\t\tif len(val) == 0 {\n\t\t\t\t\t\t\t\tcontinue\n\t\t\t\t\t\t\t}\n\t\t\t\t\t\t} else if 2 < len(attr.Text)",
+		New: "buffer.NewReader(decodeAttrVal(parse.Copy(val))), inlineParams); err == nil {\n\t\t\t\t\t\t\t\thadAmp := bytes.IndexByte(val, '&') != -1\n\t\t\t\t\t\t\t\tval = attrMinifyBuffer.Bytes()\n\t\t\t\t\t\t\t\tif hadAmp {\n\t\t\t\t\t\t\t\t\tval = escapeAttrAmp(val)\n\t\t\t\t\t\t\t\t}\n\t\t\t\t\t\t\t} else if err != minify.ErrNotExist {\n\t\t\t\t\t\t\t\treturn minify.UpdateErrorPosition(err, z, attr.Offset)\n\t\t\t\t\t\t\t}\n\t\t\t\t\t\t\tif len(val) == 0 {\n\t\t\t\t\t\t\t\tcontinue\n\t\t\t\t\t\t\t}\n\t\t\t\t\t\t} else if 2 < len(attr.Text)",
+		Rule: "R11.9", Construct: "result has its ampersands escaped on every path"})
+	mutant(&Mutant{Name: "c01-expression-merged-into-the-object-of-for-in", Property: "C01", File: "js/stmtlist.go",
+		Old: "\t\t\t\t} else if ifStmt, ok := list[i].(*js.IfStmt); ok {\n\t\t\t\t\tifStmt.Cond = commaExpr(left.Value, ifStmt.Cond)\n\t\t\t\t\tj--\n",
+		New: "\t\t\t\t} else if ifStmt, ok := list[i].(*js.IfStmt); ok {\n\t\t\t\t\tifStmt.Cond = commaExpr(left.Value, ifStmt.Cond)\n\t\t\t\t\tj--\n\t\t\t\t} else if forInStmt, ok := list[i].(*js.ForInStmt); ok {\n\t\t\t\t\tforInStmt.Value = commaExpr(left.Value, forInStmt.Value)\n\t\t\t\t\tj--\n",
+		Rule: "R01.54", Construct: "preceding expression moved into ForInStmt.Value"})
+	mutant(&Mutant{Name: "c05-colour-attribute-lower-cased-in-place", Property: "C05", File: "svg/svg.go",
+		Old: "\t\t\t\t//parse.ToLower(val)\n", New: "\t\t\t\tparse.ToLower(val)\n",
+		Rule: "R05.27", Construct: "folded as a whole"})
+	mutant(&Mutant{Name: "c16-nullish-assignment-behind-the-gate-of-nullish", Property: "C16", File: "js/js.go",
+		Old: "\t\tprecLeft := binaryLeftPrecMap[expr.Op]\n\t\tprecRight := binaryRightPrecMap[expr.Op]\n",
+		New: "\t\tif v, ok := expr.X.(*js.Var); ok && expr.Op == js.NullishToken && m.o.minVersion(2020) {\n\t\t\tif assign, ok := expr.Y.(*js.GroupExpr); ok {\n\t\t\t\tif b, ok := assign.X.(*js.BinaryExpr); ok && b.Op == js.EqToken && b.X == js.IExpr(v) {\n\t\t\t\t\tm.minifyExpr(&js.GroupExpr{X: &js.BinaryExpr{Op: js.NullishEqToken, X: v, Y: b.Y}}, prec)\n\t\t\t\t\tbreak\n\t\t\t\t}\n\t\t\t}\n\t\t}\n\t\tprecLeft := binaryLeftPrecMap[expr.Op]\n\t\tprecRight := binaryRightPrecMap[expr.Op]\n",
+		Rule: "R16.1", Construct: "operator js.NullishEqToken"})
+	mutant(&Mutant{Name: "c01-negated-number-judged-by-its-digits", Property: "C01", File: "js/js.go",
+		Old: "\t\t\t\t\tif falsy, ok := isFalsy(lit); ok {\n\t\t\t\t\t\tif falsy {\n", New: "\t\t\t\t\tif falsy, ok := len(lit.Data) == 1 && lit.Data[0] == '0', true; ok {\n\t\t\t\t\t\tif falsy {\n",
+		Rule: "R01.55", Construct: "written for a negated number"})
+	mutant(&Mutant{Name: "c03-comment-behind-pre-dropped-without-a-look", Property: "C03", File: "html/html.go",
+		Old: "\t\t\tif dropped && afterPreStart {\n", New: "\t\t\tif dropped && false {\n",
+		More: [][2]string{{"\t\tafterPreStart := preStart\n", "\t\tafterPreStart := preStart\n\t\t_ = afterPreStart\n"}},
+		Rule: "R03.26", Construct: "a dropped comment asks whether it follows the pre start tag"})
 }
